@@ -4675,6 +4675,10 @@ struct Builder<'a, 'graph> {
   graph: &'graph mut ModuleGraph,
   state: PendingState<'a>,
   fill_pass_mode: FillPassMode,
+  /// What the graph held before a build that is allowed to restart (no
+  /// roots yet, but possibly redirects and package versions filled from the
+  /// lockfile), so that a restart starts from there again.
+  graph_before_restartable_build: Option<Box<ModuleGraph>>,
   executor: &'a dyn Executor,
   resolved_roots: BTreeSet<ModuleSpecifier>,
 }
@@ -4688,6 +4692,10 @@ impl<'a, 'graph> Builder<'a, 'graph> {
     let fill_pass_mode = match graph.roots.is_empty() {
       true => FillPassMode::AllowRestart,
       false => FillPassMode::NoRestart,
+    };
+    let graph_before_restartable_build = match fill_pass_mode {
+      FillPassMode::AllowRestart => Some(Box::new(graph.clone())),
+      _ => None,
     };
     Self {
       in_dynamic_branch: options.is_dynamic,
@@ -4720,6 +4728,7 @@ impl<'a, 'graph> Builder<'a, 'graph> {
         ..Default::default()
       },
       fill_pass_mode,
+      graph_before_restartable_build,
       executor: options.executor,
       resolved_roots: Default::default(),
     }
@@ -5359,8 +5368,12 @@ impl<'a, 'graph> Builder<'a, 'graph> {
     roots: Vec<ModuleSpecifier>,
     imports: Vec<ReferrerImports>,
   ) -> LocalBoxFuture<'_, ()> {
-    // if restarting is allowed, then the graph will have been empty at the start
-    *self.graph = ModuleGraph::new(self.graph.graph_kind);
+    // if restarting is allowed, then the graph will have had no roots at the
+    // start, but it may have been filled from the lockfile
+    *self.graph = match &self.graph_before_restartable_build {
+      Some(graph) => (**graph).clone(),
+      None => ModuleGraph::new(self.graph.graph_kind),
+    };
     self.state = PendingState::default();
     self.fill_pass_mode = FillPassMode::CacheBusting;
     // the first pass may already have entered its dynamic phase
